@@ -11,7 +11,7 @@ from .. import symjax as sj, solve
 
 FUNCTIONS = ["ADEV.eval_jaxpr_adev (default path, cond case)", "_canonicalize_tangent_for_primitive_jvp / zero-tangent helpers", "Dual tree helpers",
              "ADEV.forward_mode", "Expectation.jvp_estimate / grad_estimate / estimate", "invoke_closed_over(_jvp)"]
-BOUNDS = {"programs": "24 deterministic JAX programs: arithmetic, transcendental (shared uninterpreted functions), indexing/slicing, reductions, dot/matmul/transpose, integer and boolean intermediates, dtype conversions, where, cond with either branch; scalar, array (sizes <= 3) and pytree arguments",
+BOUNDS = {"programs": "35 deterministic JAX programs (also custom_jvp functions, a three-way switch, a multi-output primitive, loops with integer counters, inner jit / checkpoint / vmap): arithmetic, transcendental (shared uninterpreted functions), indexing/slicing, reductions, dot/matmul/transpose, integer and boolean intermediates, dtype conversions, where, cond with either branch; scalar, array (sizes <= 3) and pytree arguments",
           "values": "all inputs and all tangents"}
 ASSUMPTIONS = ["sin/exp/log/... are shared uninterpreted functions: equality is proved up to the identity of the primitive applications"]
 EXPLANATION = "expectation(f).jvp_estimate/grad_estimate/estimate traced and proved equal to jax.jvp / jax.grad / f for all inputs and tangents"
@@ -47,6 +47,18 @@ def programs():
     P["cumsum_prod"] = (lambda x: jnp.sum(jnp.cumsum(x) * x) + jnp.prod(x), (V(0.1, 0.2, 0.3),))
     P["vector_output_sum"] = (lambda x, m: jnp.sum(jnp.tanh(m @ x)), (V(0.1, 0.2), np.asarray([[1.0, 2.0], [0.5, -1.0]], dtype=np.float32)))
     P["select_dynamic_index"] = (lambda x: x[jnp.argmax(x)] * jnp.sum(x), (V(0.1, 0.4, 0.3),))
+    # custom_jvp functions, multi-way switch, multi-output primitives, loops with integer counters, nested transformations
+    P["custom_jvp_relu"] = (lambda x: jnp.sum(jax.nn.relu(x) * x), (V(0.5, -0.2),))
+    P["switch_three_way"] = (lambda x: jax.lax.switch(jnp.int32(x > 0.0) + jnp.int32(x > 1.0), [lambda v: v * 2.0, lambda v: v * v, lambda v: jnp.sin(v)], x), (f32(0.5),))
+    P["top_k_multi_output"] = (lambda x: jnp.sum(jax.lax.top_k(x, 2)[0] * V(1.0, 3.0)), (V(0.5, -0.2, 0.9),))
+    P["scan_int_counter"] = (lambda x: jax.lax.scan(lambda c, _: ((c[0] * x, c[1] + 1), c[0]), (x, 0), None, length=3)[0][0], (f32(0.5),))
+    P["fori_loop_static"] = (lambda x: jax.lax.fori_loop(0, 3, lambda i, c: c * x + i, x), (f32(0.5),))
+    P["sort_weights"] = (lambda x: jnp.sum(jnp.sort(x) * jnp.arange(3)), (V(0.5, -0.2, 0.9),))
+    P["clip"] = (lambda x: jnp.sum(jnp.clip(x, -0.1, 0.3) * x), (V(0.5, -0.2, 0.2),))
+    P["inner_jit"] = (lambda x: jax.jit(lambda v: v * v + 1.0)(x) * x, (f32(0.5),))
+    P["inner_checkpoint"] = (lambda x: jax.checkpoint(lambda v: jnp.sin(v) * v)(x), (f32(0.5),))
+    P["inner_vmap"] = (lambda x: jnp.sum(jax.vmap(lambda v: v * v * 2.0)(x)), (V(0.5, -0.2),))
+    P["softmax"] = (lambda x: jnp.sum(jax.nn.softmax(x) * x), (V(0.5, -0.2),))
     return P
 
 
